@@ -295,6 +295,37 @@ func TestVerifC18CollectionGetByPDH(t *testing.T) {
 		local := c18newStub("", localAns, abort)
 		close(local.release) // the local backend is asked synchronously first
 
+		// Round 3: about a third of the requests carry a select list; most of
+		// those lists do not name manifest_text. The stub backends answer with
+		// a manifest_text anyway (honest or not), as a remote is free to do.
+		var sel []string
+		selKind := "none"
+		if sb := rapid.SliceOfN(rapid.Bool(), 4, 4).Draw(t, "selectBits"); sb[0] && (sb[1] || sb[2]) {
+			k := 0
+			for _, b := range rapid.SliceOfN(rapid.Bool(), 3, 3).Draw(t, "selectWhich") {
+				k <<= 1
+				if b {
+					k |= 1
+				}
+			}
+			sel = [][]string{
+				{"uuid", "portable_data_hash"},
+				{"uuid"},
+				{"name", "owner_uuid"},
+				{"portable_data_hash"},
+				{"uuid", "portable_data_hash", "name", "modified_at"},
+				{"manifest_text"},
+				{"uuid", "manifest_text", "portable_data_hash"},
+				{"unsigned_manifest_text"},
+			}[k]
+			selKind = "without-manifest_text"
+			for _, f := range sel {
+				if f == "manifest_text" {
+					selKind = "with-manifest_text"
+				}
+			}
+		}
+
 		forwardedFor := ""
 		if rapid.IntRange(0, 19).Draw(t, "forwarded") == 0 {
 			forwardedFor = "zqqqq-"
@@ -348,7 +379,7 @@ func TestVerifC18CollectionGetByPDH(t *testing.T) {
 		}
 		done := make(chan result, 1)
 		go func() {
-			c, err := conn.CollectionGet(parent, arvados.GetOptions{UUID: req, ForwardedFor: forwardedFor})
+			c, err := conn.CollectionGet(parent, arvados.GetOptions{UUID: req, ForwardedFor: forwardedFor, Select: append([]string(nil), sel...)})
 			done <- result{c, err}
 		}()
 
@@ -448,7 +479,7 @@ func TestVerifC18CollectionGetByPDH(t *testing.T) {
 
 		describe := func() string {
 			var sb strings.Builder
-			fmt.Fprintf(&sb, "request %q (%s; true PDH %s) forwardedFor=%q mode=%s settle=%v\n", req, reqKind, truePDH, forwardedFor, mode, settle)
+			fmt.Fprintf(&sb, "request %q (%s; true PDH %s) select=%q forwardedFor=%q mode=%s settle=%v\n", req, reqKind, truePDH, sel, forwardedFor, mode, settle)
 			if big.Streams > 0 {
 				fmt.Fprintf(&sb, "%s\n", big)
 			}
@@ -461,10 +492,15 @@ func TestVerifC18CollectionGetByPDH(t *testing.T) {
 			return sb.String()
 		}
 
-		labels := []string{"req:" + reqKind, "local:" + localAns.label(), fmt.Sprintf("remotes:%d", nrem), "mode:" + mode}
+		labels := []string{"req:" + reqKind, "local:" + localAns.label(), fmt.Sprintf("remotes:%d", nrem), "mode:" + mode, "select:" + selKind}
 		labels = append(labels, decoLabels...)
 		winner := ""
-		if res.err == nil {
+		if res.err == nil && res.coll.ManifestText == "" && selKind == "without-manifest_text" {
+			// no manifest is handed to the client, which did not ask for one:
+			// nothing for the property to judge (never seen on the unchanged
+			// tree, which verifies whatever manifest_text it received)
+			labels = append(labels, "outcome:success-without-manifest", "select:"+selKind+"/no-manifest-relayed")
+		} else if res.err == nil {
 			got := res.coll.ManifestText
 			// Who produced it? The local cluster's own answer is not "fetched
 			// from a remote cluster": the property only wants it unchanged.
@@ -532,6 +568,13 @@ func TestVerifC18CollectionGetByPDH(t *testing.T) {
 				}
 			}
 			labels = append(labels, "outcome:success")
+			if selKind != "none" {
+				if winner == "local" {
+					labels = append(labels, "select:"+selKind+"/manifest-from-local")
+				} else {
+					labels = append(labels, "select:"+selKind+"/manifest-relayed-from-remote")
+				}
+			}
 			if winner != "local" && strings.Contains(got, "+R"+winner+"-") {
 				labels = append(labels, "relayed-with-rewritten-signatures")
 			}
@@ -579,6 +622,17 @@ func TestVerifC18CollectionGetByPDH(t *testing.T) {
 				labels = append(labels, l)
 			}
 		}
+		if remotesConsulted && selKind != "none" {
+			if invalid200 > 0 {
+				labels = append(labels, "select:"+selKind+"/remote-sends-invalid-manifest")
+			}
+			if anyValidRemote {
+				labels = append(labels, "select:"+selKind+"/remote-sends-valid-manifest")
+			}
+			if res.err != nil {
+				labels = append(labels, "select:"+selKind+"/error")
+			}
+		}
 		if remotesConsulted {
 			labels = append(labels, "remotes-consulted")
 			if anyValidRemote && invalid200 > 0 {
@@ -614,7 +668,7 @@ func TestVerifC18CollectionGetByPDH(t *testing.T) {
 		for i := range labels {
 			labels[i] = "fed:" + labels[i]
 		}
-		stats.Case(stats.FP(honest, req, localAns.label(), kinds, releasedOrder, mode), nontrivial, labels...)
+		stats.Case(stats.FP(honest, req, sel, localAns.label(), kinds, releasedOrder, mode), nontrivial, labels...)
 		for _, l := range []string{"fed:outcome:success", "fed:outcome:error-5xx", "fed:valid-and-invalid-remotes-compete"} {
 			for _, have := range labels {
 				if have == l && stats.WantSample(l) {
